@@ -1,5 +1,7 @@
 import RsModel.Lemmas.TrapsDomain
+import RsModel.Lemmas.TrapsConcat
 import RsModel.Lemmas.EqViews
+import RsModel.Lemmas.ModeTree2
 /-!
 # No trap in `source()` and in the checked parts of `stream_chunks`, for whole trees
 -/
@@ -55,49 +57,135 @@ def SrcList.SizesOK : SrcList → Prop
 end
 
 mutual
-theorem Src.streamC_eq : ∀ (s : Src) (o : Opts) (σ : Store), s.NoCached → s.SizeOK → s.streamC o σ = some (s.stream o σ)
-  | .raw _ _ lossy, o, σ, _, h => by
+/-- no ConcatSource node of the tree saturates a column: at each one the crate's `saturating_add` (fix F16) and the model's
+unbounded addition deliver the same stream (`Src.noSat_normal` discharges this for trees honouring C02 below 2 GiB) -/
+def Src.NoSat (o : Opts) : Src → Prop
+  | .concat cs => cs.NoSats o ∧ Chk.concatStreamS o.final (cs.streams o []).1 = concatStream o.final (cs.streams o []).1
+  | .replace inner _ => inner.NoSat ⟨o.columns, false⟩
+  | .cached _ inner => inner.NoSat o
+  | _ => True
+def SrcList.NoSats (o : Opts) : SrcList → Prop
+  | .nil => True
+  | .cons s r => s.NoSat o ∧ r.NoSats o
+end
+
+mutual
+theorem Src.streamC_eq : ∀ (s : Src) (o : Opts) (σ : Store), s.NoCached → s.SizeOK → s.NoSat o → s.streamC o σ = some (s.stream o σ)
+  | .raw _ _ lossy, o, σ, _, h, _ => by
     simp only [Src.SizeOK] at h
     simp only [Src.streamC, Src.stream, Chk.streamRawC_total lossy o (by omega)]; rfl
-  | .rawStr t, o, σ, _, h => by
+  | .rawStr t, o, σ, _, h, _ => by
     simp only [Src.SizeOK] at h
     simp only [Src.streamC, Src.stream, Chk.streamRawC_total t o (by omega)]; rfl
-  | .rawBuf _ lossy, o, σ, _, h => by
+  | .rawBuf _ lossy, o, σ, _, h, _ => by
     simp only [Src.SizeOK] at h
     simp only [Src.streamC, Src.stream, Chk.streamRawC_total lossy o (by omega)]; rfl
-  | .orig .., o, σ, _, _ => rfl
-  | .sms t name map origSrc inner remove, o, σ, _, h => by
+  | .orig .., o, σ, _, _, _ => rfl
+  | .sms t name map origSrc inner remove, o, σ, _, h, _ => by
     simp only [Src.SizeOK] at h
     simp only [Src.streamC, Src.stream]
     cases inner with
     | some im => rfl
     | none => simp only [Chk.streamSMC_total t map o h.1 h.2]; rfl
-  | .concat .nil, o, σ, _, _ => rfl
-  | .concat (.cons s rest), o, σ, hn, h => by
+  | .concat .nil, o, σ, _, _, _ => rfl
+  | .concat (.cons s rest), o, σ, hn, h, hs => by
     simp only [Src.NoCached, SrcList.NoCachedL] at hn
     simp only [Src.SizeOK, SrcList.SizesOK] at h
+    simp only [Src.NoSat, SrcList.NoSats] at hs
     cases hr : rest with
-    | nil => simp only [Src.streamC, Src.stream]; exact Src.streamC_eq s o σ hn.1 h.1
+    | nil => simp only [Src.streamC, Src.stream]; exact Src.streamC_eq s o σ hn.1 h.1 hs.1.1
     | cons s2 rest2 =>
       simp only [Src.streamC, Src.stream]
-      rw [Src.streamC_eq s o σ hn.1 h.1]
+      rw [Src.streamC_eq s o σ hn.1 h.1 hs.1.1]
       simp only []
-      rw [SrcList.streamsC_eq (.cons s2 rest2) o _ (hr ▸ hn.2) (hr ▸ h.2)]
-  | .replace inner rs, o, σ, hn, h => by
+      rw [SrcList.streamsC_eq (.cons s2 rest2) o _ (hr ▸ hn.2) (hr ▸ h.2) (hr ▸ hs.1.2)]
+      simp only []
+      -- the children's results do not depend on the store (no CachedSource), so the hypothesis about `[]` applies
+      have e1 := (Src.stream_nc s o σ hn.1).2
+      have e2 := (Src.stream_nc s o σ hn.1).1
+      have e3 := (SrcList.streams_nc (.cons s2 rest2) o (s.stream o σ).2 (hr ▸ hn.2)).2
+      have e4 := (Src.stream_nc s o [] hn.1).1
+      have e5 := (SrcList.streams_nc (.cons s2 rest2) o (s.stream o []).2 (hr ▸ hn.2)).2
+      have hsat := hs.2
+      rw [hr] at hsat
+      simp only [SrcList.streams] at hsat e3 e5 ⊢
+      rw [e1, e3]
+      rw [e5] at hsat
+      rw [hsat]
+  | .replace inner rs, o, σ, hn, h, hs => by
     simp only [Src.NoCached] at hn
     simp only [Src.SizeOK] at h
+    simp only [Src.NoSat] at hs
     simp only [Src.streamC, Src.stream]
-    rw [Src.streamC_eq inner ⟨o.columns, false⟩ σ hn h]
-  | .cached _ _, _, _, hn, _ => by simp [Src.NoCached] at hn
-theorem SrcList.streamsC_eq : ∀ (l : SrcList) (o : Opts) (σ : Store), l.NoCachedL → l.SizesOK → l.streamsC o σ = some (l.streams o σ)
-  | .nil, o, σ, _, _ => rfl
-  | .cons s rest, o, σ, hn, h => by
+    rw [Src.streamC_eq inner ⟨o.columns, false⟩ σ hn h hs]
+  | .cached _ _, _, _, hn, _, _ => by simp [Src.NoCached] at hn
+theorem SrcList.streamsC_eq : ∀ (l : SrcList) (o : Opts) (σ : Store), l.NoCachedL → l.SizesOK → l.NoSats o → l.streamsC o σ = some (l.streams o σ)
+  | .nil, o, σ, _, _, _ => rfl
+  | .cons s rest, o, σ, hn, h, hs => by
     simp only [SrcList.NoCachedL] at hn
     simp only [SrcList.SizesOK] at h
+    simp only [SrcList.NoSats] at hs
     simp only [SrcList.streamsC, SrcList.streams]
-    rw [Src.streamC_eq s o σ hn.1 h.1]
+    rw [Src.streamC_eq s o σ hn.1 h.1 hs.1]
     simp only []
-    rw [SrcList.streamsC_eq rest o _ hn.2 h.2]
+    rw [SrcList.streamsC_eq rest o _ hn.2 h.2 hs.2]
+end
+
+
+/-! ## trees honouring C02 never saturate -/
+
+mutual
+/-- every ConcatSource node's text is below 2 GiB -/
+def Src.HalfOK : Src → Prop
+  | .concat cs => cs.HalfOKs ∧ 2 * cs.srcs.length < 2 ^ 32
+  | .replace inner _ => inner.HalfOK
+  | .cached _ inner => inner.HalfOK
+  | _ => True
+def SrcList.HalfOKs : SrcList → Prop
+  | .nil => True
+  | .cons s r => s.HalfOK ∧ r.HalfOKs
+end
+
+theorem Chk.sumText_eq : ∀ (rs : List SResult), Chk.sumText rs = ((rs.map fun r => evsText r.evs).flatten).length := by
+  intro rs
+  induction rs with
+  | nil => rfl
+  | cons r rs ih => simp only [Chk.sumText, List.map_cons, List.flatten_cons, List.length_append, ih]
+
+mutual
+/-- **normal mode, trees in the domain of C02** (no CachedSource, ASCII map-driven leaves with maps inside their text, each
+ConcatSource below 2 GiB): no ConcatSource node saturates, so the repaired crate and the model stream alike -/
+theorem Src.noSat_normal : ∀ (s : Src) (c : Bool), s.NoCached → s.WF → s.PosHyp c → s.HalfOK → s.NoSat ⟨c, false⟩
+  | .raw .., _, _, _, _, _ | .rawStr .., _, _, _, _, _ | .rawBuf .., _, _, _, _, _ | .orig .., _, _, _, _, _ | .sms .., _, _, _, _, _ => trivial
+  | .concat cs, c, hn, hw, hp, hh => by
+    simp only [Src.NoCached] at hn
+    simp only [Src.WF] at hw
+    simp only [Src.PosHyp] at hp
+    simp only [Src.HalfOK] at hh
+    simp only [Src.NoSat]
+    refine ⟨SrcList.noSats_normal cs c hn hw hp hh.1, ?_⟩
+    have hnodes := SrcList.nc_nodesL cs hn
+    have hpos := SrcList.streams_posOK cs c [] hw hp (by simp [SrcList.idsL, hnodes]) (fun p hp => by rw [hnodes] at hp; cases hp)
+    have htl := SrcList.streams_tl cs c []
+    apply Chk.concatStreamS_eq_of_posOK false _ (fun r hr => ⟨hpos r hr, htl r hr⟩)
+    rw [Chk.sumText_eq, SrcList.streams_text cs c [] hw]
+    exact hh.2
+  | .replace inner rs, c, hn, hw, hp, hh => by
+    simp only [Src.NoCached] at hn
+    simp only [Src.WF] at hw
+    simp only [Src.PosHyp] at hp
+    simp only [Src.HalfOK] at hh
+    simp only [Src.NoSat]
+    exact Src.noSat_normal inner c hn hw.1 hp.1 hh
+  | .cached _ _, _, hn, _, _, _ => by simp [Src.NoCached] at hn
+theorem SrcList.noSats_normal : ∀ (l : SrcList) (c : Bool), l.NoCachedL → l.WFs → l.PosHyps c → l.HalfOKs → l.NoSats ⟨c, false⟩
+  | .nil, _, _, _, _, _ => trivial
+  | .cons s r, c, hn, hw, hp, hh => by
+    simp only [SrcList.NoCachedL] at hn
+    simp only [SrcList.WFs] at hw
+    simp only [SrcList.PosHyps] at hp
+    simp only [SrcList.HalfOKs] at hh
+    exact ⟨Src.noSat_normal s c hn.1 hw.1 hp.1 hh.1, SrcList.noSats_normal r c hn.2 hw.2 hp.2 hh.2⟩
 end
 
 /-- a CachedSource answering from its cache replays the stored map through the same splitters: no trap either, whatever map an
